@@ -11,7 +11,7 @@ from pathlib import Path
 
 import z3
 
-from .core import State
+from .core import State, pin
 from .vals import T, Tup, Unsupported
 
 SPEC_DIR = Path(__file__).resolve().parent.parent / "spec"
@@ -36,6 +36,7 @@ class SpecLib:
         # opaque: first statement is the docstring marker "opaque: ..." -- never inlined, unfolded only
         # where a contract reveals it (keeps queries small; Verus-style opaque/reveal)
         self.opaque = {f for f, n in self.funcs.items() if (ast.get_docstring(n) or "").startswith("opaque")}
+        self.base_opaque = set(self.opaque)
         self.revealed: set[str] = set()
         self.decls: dict[str, z3.FuncDeclRef] = {}
         self.sig: dict[str, tuple] = {}
@@ -177,7 +178,7 @@ class SpecLib:
         while frontier and level < depth:
             nxt = []
             for app in frontier:
-                key = app.get_id()
+                key = pin(app)
                 if key in done:
                     continue
                 done.add(key)
@@ -191,7 +192,7 @@ class SpecLib:
                         args = [app.arg(i) for i in range(app.num_args())]
                         succ = app.decl()(*args[:-1], args[-1] + 1)
                         if succ.get_id() not in done:
-                            done.add(succ.get_id())
+                            done.add(pin(succ))
                             insts.append(succ)
                 for a in insts:
                     eq = self.instance(name, a)
@@ -210,7 +211,7 @@ class SpecLib:
     def _apps(self, formulas, by_decl):
         res, have = [], set()
         for f in formulas:
-            key = (f.get_id(), len(by_decl))
+            key = (pin(f), len(by_decl))
             hit = self._apps_cache.get(key)
             if hit is None:
                 hit = self._apps_one(f, by_decl)
